@@ -613,7 +613,7 @@ def prepare_dump(data: IOData, allow_changes: bool, filename: str) -> IOData:
 
 @document_dump_one(
     "Gaussian Formatted Checkpoint",
-    ["atnums", "atcorenums", "atcoords", "nelec"],
+    ["atnums", "atcorenums", "atcoords", "nelec", "obasis"],
     [
         "atcharges",
         "atfrozen",
